@@ -517,8 +517,15 @@ def ident_as_str(m, a, ci):
 
 @reg('Int::get')
 def int_get(m, a, ci):
-    # the value the lexer's number parser assigns to the token text: an uninterpreted function of the node
-    return z3.BitVec('int_value_of_node_%d' % _ast_node(m, a[0]).nid, 64)
+    # the value the lexer's number parser assigns to the token text: decimal digits read as such; otherwise (other radix, symbolic
+    # text) an uninterpreted function of the node
+    nd = _ast_node(m, a[0])
+    t = getattr(nd, 'text', None)
+    if t is not None and hasattr(t, 'is_concrete') and t.is_concrete():
+        txt = t.concrete()
+        if txt.isascii() and txt.isdigit() and len(txt) <= 18:
+            return int(txt)
+    return z3.BitVec('int_value_of_node_%d' % nd.nid, 64)
 
 
 @reg('Float::get', 'Numeric::get')
